@@ -225,6 +225,12 @@ def checkList (f : List Item → List Nat → Item → Except Err Out) (pre : Li
       | .error e => .error e
       | .ok o2 => .ok ⟨o2.root, o1.gaps ++ o2.gaps, o1.trace ++ o2.trace⟩
 
+/-- `macro.level is not None and macro.level <= check_level`. -/
+def levelOk (level : Option Nat) (checkLevel : Nat) : Bool :=
+  match level with
+  | none => false
+  | some l => decide (l ≤ checkLevel)
+
 /-- The tail of `_check_proof_item`: compare with the stated sequent, store, type check. -/
 def finish (R : Rules) (root : List Item) (pos : List Nat) (seq : Item) (gaps : List Seq)
     (trace : List Ev) (res : Option Seq) : Except Err Out :=
@@ -292,7 +298,7 @@ def checkItem (R : Rules) (cfg : Cfg) : Nat → List Item → List Nat → Item 
             | .error e => .error (.raised e)
             | .ok r => finish R root pos seq [] [] (some r)
           | .macro level =>
-            if (match level with | none => false | some l => decide (l ≤ cfg.checkLevel)) then
+            if levelOk level cfg.checkLevel then
               match R.eval seq.rule seq.args prevThs with
               | .error e => .error (.raised e)
               | .ok r => finish R root pos seq [] [] (some r)
